@@ -266,8 +266,8 @@ def c11_streams(ctx):
     return [s, glob_base_stream("C11", ctx)]
 
 PLANS["C11"] = dict(
-    modules=["Wx.Glob.C11", "Wx.Glob.C11Inst", "Wx.Glob.GlobThm", "Wx.Glob.GlobPath", "Wx.Glob.GlobPath2"],
-    theorems=["Sp.Glob.parseGo_fuel", "Sp.Glob.addLine_ok", "Sp.Glob.addLine_name", "Sp.Glob.name_matches", "Sp.Glob.addLine_star_ext", "Sp.Glob.star_ext_matches", "Sp.Glob.addLine_rooted", "Sp.Glob.rooted_matches", "Sp.Glob.addLine_inner_slash", "Sp.Glob.addLine_dir_contents", "Sp.Glob.dir_contents_matches", "Sp.Glob.recPrefix_lits_iff", "Sp.Glob.star_ext_iff", "Sp.Glob.dir_contents_iff", "Sp.Glob.parse_plain", "Sp.Glob.ext_ignores_iff", "Sp.Glob.lastComp_ignores_iff", "Sp.Glob.extGlob_lastComp", "Sp.Glob.nameGlob_lastComp", "Sp.Glob.name_ignores_iff",
+    modules=["Wx.Glob.C11", "Wx.Glob.C11Inst", "Wx.Glob.GlobThm", "Wx.Glob.GlobPath", "Wx.Glob.GlobPath2", "Wx.Glob.GlobPath3"],
+    theorems=["Sp.Glob.parseGo_fuel", "Sp.Glob.addLine_ok", "Sp.Glob.addLine_name", "Sp.Glob.name_matches", "Sp.Glob.addLine_star_ext", "Sp.Glob.star_ext_matches", "Sp.Glob.addLine_rooted", "Sp.Glob.rooted_matches", "Sp.Glob.addLine_inner_slash", "Sp.Glob.addLine_dir_contents", "Sp.Glob.dir_contents_matches", "Sp.Glob.recPrefix_lits_iff", "Sp.Glob.star_ext_iff", "Sp.Glob.dir_contents_iff", "Sp.Glob.parse_plain", "Sp.Glob.ext_ignores_iff", "Sp.Glob.lastComp_ignores_iff", "Sp.Glob.extGlob_lastComp", "Sp.Glob.nameGlob_lastComp", "Sp.Glob.name_ignores_iff", "Sp.Glob.dir_line_ignores_iff", "Sp.Glob.lastCompDir_ignores_iff",
               "Sp.C11.no_paths_pass", "Sp.C11.whitelisted_pass", "Sp.C11.igf_rejects", "Sp.C11.check_iff", "Sp.C11.wanted_iff", "Sp.C11.wanted_empty",
               "Sp.C11.ignore_precedence", "Sp.C11.verdict_append", "Sp.C11.verdict_insert", "Sp.C11.ignore_monotone", "Sp.C11.empty_passes",
               "Sp.GS.c11_no_paths", "Sp.GS.c11_whitelisted", "Sp.GS.c11_empty_config"],
